@@ -107,6 +107,53 @@ def threaded_trace(ctx, workers):
     return ok, events, len(thr), garbled
 
 
+def broadcast_winds(ctx, dask):
+    """spectra on (time, site) with ONE wind / depth series that lacks one of their dimensions (a single met record applied to every
+    site, or a per-site depth without time): auxiliary arrays with fewer dimensions than the chunked spectra.  Every partition
+    method that takes winds, hp01 included, on every chunking of the spectra, with in-memory and with lazy winds."""
+    import xarray as xr
+    a, b = S.make(1), S.make(2)
+    da = xr.concat([a, b * 0.75 + a.roll(dir=2, roll_coords=False)], dim=xr.DataArray([0, 1], dims="site", name="site")).transpose("time", "site", "freq", "dir")
+    chunkings = {"time1": {"time": 1}, "site1_time2": {"site": 1, "time": 2}, "freq3": {"freq": 3}, "all_split": {"time": 1, "site": 1, "freq": 2, "dir": 3},
+                 "single": {d: -1 for d in da.dims}}
+    for wd in ("time", "site"):
+        n = da.sizes[wd]
+        mk = lambda v: xr.DataArray(np.array(v)[:n], coords={wd: da[wd]}, dims=(wd,))  # noqa
+        w = (mk([8.0, 14.0, 20.0]), mk([10.0, 100.0, 250.0]), mk([30.0, 200.0, 3000.0]))
+        for op in ("ptm1", "ptm2", "ptm4", "hp01"):
+            f = lambda x, ww: getattr(x.spec.partition, op)(*ww)  # noqa
+            try:
+                mem = S.project(f(da, w))
+            except Exception as ex:  # noqa
+                raise MachineryError("in-memory %s with winds on (%s) failed: %s" % (op, wd, ex))
+            for cname, ch in chunkings.items():
+                for lazy in (False, True):
+                    for sname, nw in (("synchronous", None), ("threads", 8)):
+                        if ctx.quick and (sname == "threads") != (cname == "time1"):
+                            continue
+                        ctx.case(("broadcast_winds", wd, op, cname, lazy, sname), True)
+                        kw = {"scheduler": sname}
+                        if nw:
+                            kw["num_workers"] = nw
+                        try:
+                            with dask.config.set(**kw):
+                                got = S.project(f(da.chunk(ch), tuple(x.chunk() for x in w) if lazy else w))
+                        except Exception as ex:  # noqa
+                            ctx.violation({"op": op, "stage": "broadcast_winds", "winds_on": wd, "raised": type(ex).__name__},
+                                          "%s with winds given on (%s) only fails on %s-chunked spectra on (time, site) (%s winds, %s): %s: %s" %
+                                          (op, wd, cname, "lazy" if lazy else "in-memory", sname, type(ex).__name__, str(ex)[:160]))
+                            break
+                        d = S.same(got, mem, 1e-9)
+                        if d is None:
+                            ctx.replayed()
+                        else:
+                            ctx.violation({"op": op, "stage": "broadcast_winds", "winds_on": wd, "chunking": cname},
+                                          "%s with winds on (%s) on %s-chunked (time, site) spectra differs from the in-memory result: %s" % (op, wd, cname, d))
+                    else:
+                        continue
+                    break
+
+
 def run(ctx):
     setup_repo_imports()
     import warnings
@@ -214,5 +261,6 @@ def run(ctx):
                 else:
                     ctx.violation({"op": op, "chunking": cname, "scheduler": sname},
                                   "%s on %s-chunked input (%s, workers=%s) differs from the in-memory result: %s" % (op, cname, sname, nw, d))
+    broadcast_winds(ctx, dask)
     ctx.assume("events are written inside the C wrapper while the GIL is held; thread ids are renumbered before TLC sees them")
     ctx.assume("a data race needing true parallelism inside the C routine cannot occur while the GIL is held: the check establishes that it is held")
